@@ -127,7 +127,7 @@ func c20Dial(c *Ctx) {
 			}
 		}
 		if mm.Choose("timeout", 2) == 1 {
-			d.F[iTimeout] = fold.Int{Lo: 1, Hi: 1 << 40, Name: "Timeout"}
+			d.F[iTimeout] = fold.Int{Lo: 1, Hi: bigLen(), Name: "Timeout"}
 		} else {
 			d.F[iTimeout] = fold.K(0)
 		}
